@@ -38,6 +38,77 @@ fn v_token_ok(t: [u8; 4]) -> bool {
     t != [0xff; 4] && t != [0; 4]
 }
 
+// ---- state construction for the feed-level step harnesses (feed_step in the shared template) ----
+// state kinds: 0 Unconnected, 1 Connecting, 2 Pending, 3 Online, 4 Disconnected
+
+fn v_opt_token() -> Option<Token> {
+    if kani::any() {
+        Some(Token(kani::any()))
+    } else {
+        None
+    }
+}
+
+fn v_state(kind: u8) -> Connection {
+    let state = match kind {
+        0 => State::Unconnected,
+        1 => State::Connecting,
+        2 => State::Pending(PendingState::new(v_opt_token())),
+        // 3: Online with an agreed token, 7: Online without (legacy peers); separate harnesses, a
+        // symbolic token mode made the Online-state queries exceed 16 GB
+        3 | 7 => {
+            let mut o = OnlineState::new(if kind == 3 { Some(Token(kani::any())) } else { None });
+            o.ack = Sequence::from_u16(kani::any::<u16>() % 1024);
+            o.sequence = Sequence::from_u16(kani::any::<u16>() % 1024);
+            State::Online(o)
+        }
+        _ => State::Disconnected,
+    };
+    Connection { state: state, send: Timeout::inactive(), builder: PacketBuilder::new() }
+}
+
+fn v_state_kind(c: &Connection) -> u8 {
+    match c.state {
+        State::Unconnected => 0,
+        State::Connecting => 1,
+        State::Pending(_) => 2,
+        State::Online(_) => 3,
+        State::Disconnected => 4,
+    }
+}
+
+/// (agreed token or fe fe fe fe for "agreed: no token", unused)
+fn v_tokens(c: &Connection) -> ([u8; 4], [u8; 4]) {
+    (v_expected_token(c), [0; 4])
+}
+
+/// the token a datagram must carry not to be inert, if the state has fixed one
+fn v_required_token(state_kind: u8, tokens: ([u8; 4], [u8; 4]), _pkt_kind: u8, _carried: [u8; 4]) -> Option<[u8; 4]> {
+    if state_kind == 2 || state_kind == 3 {
+        Some(tokens.0)
+    } else {
+        None
+    }
+}
+
+/// packet kind (parser stand-in numbering) of the acceptor's answer that makes the connector ready
+fn v_ready_kind() -> u8 {
+    4 // ConnectAccept
+}
+
+/// states that keep the send timer armed
+fn v_timer_state(kind: u8) -> bool {
+    kind == 1 || kind == 2 || kind == 3
+}
+
+/// documented handshake edges (before, packet kind, after)
+fn v_edge(before: u8, pkt: u8, after: u8) -> bool {
+    (before == 0 && pkt == 3 && after == 2)      // Connect: Unconnected -> Pending
+        || (before == 1 && pkt == 4 && after == 3) // ConnectAccept: Connecting -> Online
+        || (before == 2 && pkt == 2 && after == 3) // first chunk packet: Pending -> Online
+        || (pkt == 1 && after == 4)                // Close
+}
+
 include!(concat!(env!("LIBTW2_VERIF_HARNESS"), "/gen_net_conn06.rs"));
 
 // ---------------------------------------------------------------------------------------------
